@@ -1,5 +1,19 @@
 """Per-property search plans: which harness runs make up the quick and thorough tiers."""
 
+def both(variant, quick, thorough, asan_shards=6, opt_shards=10):
+    """the same search on the sanitizer build (memory errors, UB) and on the optimised build (6x the cases)"""
+    out = []
+    for fl, sh in (("asan", asan_shards), ("opt", opt_shards)):
+        q = dict(quick); t = dict(thorough)
+        share = sh / float(asan_shards + opt_shards)
+        q["shards"] = sh; t["shards"] = sh
+        # the optimised build gets through about six times as many cases in the same time
+        mult = 6 if fl == "opt" else 1
+        q["cases"] = max(sh, int(quick["cases"] * share * mult)); t["cases"] = max(sh, int(thorough["cases"] * share * mult))
+        out.append(dict(variant=variant, flavour=fl, quick=q, thorough=t))
+    return out
+
+
 PLAN = {
     "C06": dict(
         rule=("stateful model-based histories of edit calls drawn from the model's current state (valid by construction), "
@@ -10,11 +24,47 @@ PLAN = {
         assumptions=["reference model = documented meaning of each edit call (harness/qsx_ops.cpp)",
                      "duplicate indices inside one delete list are not generated (undocumented)"],
         min_nontrivial=dict(quick=200, thorough=2000),
-        runs=[
-            dict(variant="", quick=dict(cases=6000, size=100, shards=12, budget=45),
-                 thorough=dict(cases=120000, size=200, shards=16, budget=600)),
-            dict(variant="bulk", quick=dict(cases=400, size=100, shards=4, budget=45),
-                 thorough=dict(cases=8000, size=150, shards=16, budget=600)),
-        ],
+        runs=both("", dict(cases=6000, size=100, budget=40), dict(cases=120000, size=200, budget=600), 5, 7) +
+             both("bulk", dict(cases=500, size=100, budget=40), dict(cases=8000, size=150, budget=600), 2, 2),
+    ),
+    "C01": dict(
+        rule=("LP from constructive families (optimal-by-construction with chosen degeneracy, ill-conditioned, infeasible by tiny "
+              "margins, lower-dimensional faces, unbounded, cycling classics, structural corner cases) x solve configuration "
+              "(entry point, algorithm, 4x4 pricing rules, scaling, mpf precision, warm start: none/optimal/arbitrary/other "
+              "objective, iteration limits) x API build route; every OPTIMAL answer is checked exactly: out-parameters == "
+              "accessors, slack and reduced-cost identities, primal feasibility, weak-duality bound from pi equals c.x, value. "
+              "Non-trivial = OPTIMAL with m>=1, n>=2 and a non-zero dual; distinct = distinct case text."),
+        technique="PBT with exact certificate oracle (weak duality bound in rational arithmetic)",
+        min_nontrivial=dict(quick=500, thorough=5000),
+        runs=both("", dict(cases=12000, size=100, shards=16, budget=40), dict(cases=400000, size=150, shards=16, budget=600)),
+    ),
+    "C02": dict(
+        rule=("LPs infeasible by construction (margins 1, 2^-20, 2^-60, 2^-200; one or two rows carrying the contradiction), "
+              "LPs feasible only on a lower-dimensional face, random and corner-case LPs x solver configurations; every "
+              "INFEASIBLE answer of the exact solver must come with multipliers accepted by an exact Farkas checker (either "
+              "orientation, never leaning on an infinite bound), and no LP with a certified feasible point may be called "
+              "INFEASIBLE by any entry point. Non-trivial = INFEASIBLE with >=2 non-zero multipliers, or a face LP solved."),
+        technique="PBT with exact Farkas-certificate oracle + reference solver for feasibility",
+        min_nontrivial=dict(quick=300, thorough=3000),
+        runs=both("", dict(cases=12000, size=100, shards=16, budget=40), dict(cases=400000, size=150, shards=16, budget=600)),
+    ),
+    "C03": dict(
+        rule=("well-formed LPs of moderate bit size (<= 8x8 random families; truth from an independent self-certifying exact "
+              "simplex: OPTIMAL needs a verified primal-dual pair, INFEASIBLE verified Farkas multipliers, UNBOUNDED a verified "
+              "feasible point + improving ray); QSexact_solver with default limits must return 0, the same definitive status and "
+              "the same optimal value. Cases the reference cannot certify are inconclusive, never judged. Non-trivial = certified "
+              "truth with m>=1 and n>=2."),
+        technique="PBT, differential against a self-certifying exact reference solver",
+        min_nontrivial=dict(quick=500, thorough=5000),
+        runs=both("", dict(cases=12000, size=100, shards=16, budget=45), dict(cases=400000, size=150, shards=16, budget=900)),
+    ),
+    "C04": dict(
+        rule=("one LP x a set of 6-10 configurations always containing primal and dual exact runs, scaling on/off, both direct "
+              "rational simplex entry points, warm starts (optimal basis, arbitrary type-correct basis, optimal basis of another "
+              "objective) and repeated solves of the same object; all definitive (status, value) pairs must be identical and equal "
+              "to the reference truth. Non-trivial = >=4 definitive answers on an LP with certified truth, m>=1, n>=2."),
+        technique="PBT, metamorphic/differential over solver configurations",
+        min_nontrivial=dict(quick=300, thorough=3000),
+        runs=both("", dict(cases=4000, size=100, shards=16, budget=45), dict(cases=100000, size=150, shards=16, budget=900)),
     ),
 }
